@@ -489,4 +489,89 @@ theorem uint32Message_enc_gen (x : Nat) :
     Buf.make, Buf.set, Buf.put, Buf.putIn, Buf.copy, Buf.copyIn, overwrite, zeros, be16, be32, be64,
     fill, fillFrom, pCopy, pU8, pU16, pU32, pU64]
 
+/-! ### round T1d: Nicira actions in a buffer of the stored length, byte-array payloads, instructions with pad -/
+
+/-- NXActionCTClear: Nicira header, then the zero array copied at 10 (buffer of the stored length; any array content) -/
+theorem nXActionCTClear_enc_gen (ty ln vendor sub : Nat) (z : Bytes) :
+    NXActionCTClear.marshalM (.obj "NXActionCTClear" [.obj "NXActionHeader" [.obj "ActionHeader" [.num ty, .num ln], .num vendor, .num sub], .bytes z]) =
+      (Gen.openflow13.NXActionCTClear.MarshalBinary { NXActionHeader := { ActionHeader := { Type_ := n16 ty, Length := n16 ln }, Vendor := n32 vendor, Subtype := n16 sub }, zeros := z }) >>= fun bs => .ok (bs, .obj "NXActionCTClear" [.obj "NXActionHeader" [.obj "ActionHeader" [.num ty, .num ln], .num vendor, .num sub], .bytes z]) := by
+  simp only [NXActionCTClear.marshalM, Gen.openflow13.NXActionCTClear.MarshalBinary, nxh_model, nxh_gen, NXActionHeader.length, ActionHeader.length,
+    Gen.openflow13.NXActionCTClear.Len, Res.bind_ok, Res.bind_ok_right, fill, fillFrom_put, fillFrom_copy, fillFrom_copyAdv, fillFrom_skip, fillFrom_nil, pCopy, pCopyAdv, pSkip, pU8, pU16, pU32, pU64, same,
+    Buf.set, Buf.make, be16_len, be32_len, be64_len, List.length_cons, List.length_nil, bind_assoc, Res.pure_eq]
+
+/-- NXActionDecTTL: Nicira header, controllers (be16 at 10), the zero array copied at 12 -/
+theorem nXActionDecTTL_enc_gen (ty ln vendor sub : Nat) (c : Nat) (z : Bytes) :
+    NXActionDecTTL.marshalM (.obj "NXActionDecTTL" [.obj "NXActionHeader" [.obj "ActionHeader" [.num ty, .num ln], .num vendor, .num sub], .num c, .bytes z]) =
+      (Gen.openflow13.NXActionDecTTL.MarshalBinary { NXActionHeader := { ActionHeader := { Type_ := n16 ty, Length := n16 ln }, Vendor := n32 vendor, Subtype := n16 sub }, controllers := n16 c, zeros := z }) >>= fun bs => .ok (bs, .obj "NXActionDecTTL" [.obj "NXActionHeader" [.obj "ActionHeader" [.num ty, .num ln], .num vendor, .num sub], .num c, .bytes z]) := by
+  simp only [NXActionDecTTL.marshalM, Gen.openflow13.NXActionDecTTL.MarshalBinary, nxh_model, nxh_gen, NXActionHeader.length, ActionHeader.length,
+    Gen.openflow13.NXActionDecTTL.Len, Res.bind_ok, Res.bind_ok_right, fill, fillFrom_put, fillFrom_copy, fillFrom_copyAdv, fillFrom_skip, fillFrom_nil, pCopy, pCopyAdv, pSkip, pU8, pU16, pU32, pU64, same,
+    Buf.set, Buf.make, be16_len, be32_len, be64_len, List.length_cons, List.length_nil, bind_assoc, Res.pure_eq]
+
+/-- NXActionResubmitTable: Nicira header, in_port (be16 at 10), table at 12, three bytes left zero -/
+theorem nXActionResubmitTable_enc_gen (ty ln vendor sub : Nat) (ip t : Nat) (pad ct : V) :
+    NXActionResubmitTable.marshalM (.obj "NXActionResubmitTable" [.obj "NXActionHeader" [.obj "ActionHeader" [.num ty, .num ln], .num vendor, .num sub], .num ip, .num t, pad, ct]) =
+      (Gen.openflow13.NXActionResubmitTable.MarshalBinary { NXActionHeader := { ActionHeader := { Type_ := n16 ty, Length := n16 ln }, Vendor := n32 vendor, Subtype := n16 sub }, InPort := n16 ip, TableID := n8 t }) >>= fun bs => .ok (bs, .obj "NXActionResubmitTable" [.obj "NXActionHeader" [.obj "ActionHeader" [.num ty, .num ln], .num vendor, .num sub], .num ip, .num t, pad, ct]) := by
+  simp only [NXActionResubmitTable.marshalM, Gen.openflow13.NXActionResubmitTable.MarshalBinary, nxh_model, nxh_gen, NXActionHeader.length, ActionHeader.length,
+    Gen.openflow13.NXActionResubmitTable.Len, Res.bind_ok, Res.bind_ok_right, fill, fillFrom_put, fillFrom_copy, fillFrom_copyAdv, fillFrom_skip, fillFrom_nil, pCopy, pCopyAdv, pSkip, pU8, pU16, pU32, pU64, same,
+    Buf.set, Buf.make, be16_len, be32_len, be64_len, List.length_cons, List.length_nil, bind_assoc, Res.pure_eq]
+
+/-- NXActionResubmit: Nicira header, in_port (be16 at 10), nothing written after it; the encoder STORES table id 255
+    (OFPTT_ALL) in the receiver — the model leaves behind the table id the regenerated receiver holds -/
+theorem nxActionResubmit_enc_gen (ty ln vendor sub ip : Nat) (t0 pad : V) (t : Nat) :
+    NXActionResubmit.marshalM (.obj "NXActionResubmit" [.obj "NXActionHeader" [.obj "ActionHeader" [.num ty, .num ln], .num vendor, .num sub], .num ip, t0, pad]) =
+      (Gen.openflow13.NXActionResubmit.MarshalBinary { NXActionHeader := { ActionHeader := { Type_ := n16 ty, Length := n16 ln }, Vendor := n32 vendor, Subtype := n16 sub }, InPort := n16 ip, TableID := n8 t }) >>=
+        fun r => .ok (r.1, .obj "NXActionResubmit" [.obj "NXActionHeader" [.obj "ActionHeader" [.num ty, .num ln], .num vendor, .num sub], .num ip, .num r.2.TableID.toNat, pad]) := by
+  simp only [NXActionResubmit.marshalM, Gen.openflow13.NXActionResubmit.MarshalBinary, nxh_model, nxh_gen, NXActionHeader.length, ActionHeader.length,
+    Gen.openflow13.NXActionResubmit.Len, Res.bind_ok, Res.bind_ok_right, fill, fillFrom_put, fillFrom_copy, fillFrom_copyAdv, fillFrom_skip, fillFrom_nil, pCopy, pCopyAdv, pSkip, pU8, pU16, pU32, pU64, same,
+    Buf.set, Buf.make, be16_len, be32_len, be64_len, List.length_cons, List.length_nil, bind_assoc, Res.pure_eq]
+  simp [Res.bind_assoc', Gen.openflow13.OFPTT_ALL]
+
+/-- EthDstField: make(6) then copy of the address bytes (shorter: zero-filled, longer: truncated) -/
+theorem ethDstField_enc_gen (b : Bytes) :
+    EthDstField.marshalM (.obj "EthDstField" [.bytes b]) =
+      (Gen.openflow13.EthDstField.MarshalBinary { EthDst := b }) >>= fun bs => .ok (bs, .obj "EthDstField" [.bytes b]) := by
+  simp [EthDstField.marshalM, Gen.openflow13.EthDstField.MarshalBinary, Gen.openflow13.EthDstField.Len, same, Buf.make, Buf.copy, makeCopy, copyInto, overwrite]
+
+/-- EthSrcField: make(6) then copy of the address bytes (shorter: zero-filled, longer: truncated) -/
+theorem ethSrcField_enc_gen (b : Bytes) :
+    EthSrcField.marshalM (.obj "EthSrcField" [.bytes b]) =
+      (Gen.openflow13.EthSrcField.MarshalBinary { EthSrc := b }) >>= fun bs => .ok (bs, .obj "EthSrcField" [.bytes b]) := by
+  simp [EthSrcField.marshalM, Gen.openflow13.EthSrcField.MarshalBinary, Gen.openflow13.EthSrcField.Len, same, Buf.make, Buf.copy, makeCopy, copyInto, overwrite]
+
+/-- Ipv6SrcField: make(16) then copy of the address bytes (shorter: zero-filled, longer: truncated) -/
+theorem ipv6SrcField_enc_gen (b : Bytes) :
+    Ipv6SrcField.marshalM (.obj "Ipv6SrcField" [.bytes b]) =
+      (Gen.openflow13.Ipv6SrcField.MarshalBinary { Ipv6Src := b }) >>= fun bs => .ok (bs, .obj "Ipv6SrcField" [.bytes b]) := by
+  simp [Ipv6SrcField.marshalM, Gen.openflow13.Ipv6SrcField.MarshalBinary, Gen.openflow13.Ipv6SrcField.Len, same, Buf.make, Buf.copy, makeCopy, copyInto, overwrite]
+
+/-- Ipv6DstField: make(16) then copy of the address bytes (shorter: zero-filled, longer: truncated) -/
+theorem ipv6DstField_enc_gen (b : Bytes) :
+    Ipv6DstField.marshalM (.obj "Ipv6DstField" [.bytes b]) =
+      (Gen.openflow13.Ipv6DstField.MarshalBinary { Ipv6Dst := b }) >>= fun bs => .ok (bs, .obj "Ipv6DstField" [.bytes b]) := by
+  simp [Ipv6DstField.marshalM, Gen.openflow13.Ipv6DstField.MarshalBinary, Gen.openflow13.Ipv6DstField.Len, same, Buf.make, Buf.copy, makeCopy, copyInto, overwrite]
+
+/-- ArpXHaField: make(6) then copy of the address bytes (shorter: zero-filled, longer: truncated) -/
+theorem arpXHaField_enc_gen (b : Bytes) :
+    ArpXHaField.marshalM (.obj "ArpXHaField" [.bytes b]) =
+      (Gen.openflow13.ArpXHaField.MarshalBinary { ArpHa := b }) >>= fun bs => .ok (bs, .obj "ArpXHaField" [.bytes b]) := by
+  simp [ArpXHaField.marshalM, Gen.openflow13.ArpXHaField.MarshalBinary, Gen.openflow13.ArpXHaField.Len, same, Buf.make, Buf.copy, makeCopy, copyInto, overwrite]
+
+/-- InstrGotoTable: header, table id at 4, two zero bytes, the first pad byte (if any) at 7 -/
+theorem instrGotoTable_enc_gen (ty ln tid : Nat) (pad : Bytes) :
+    InstrGotoTable.marshalM (.obj "InstrGotoTable" [.obj "InstrHeader" [.num ty, .num ln], .num tid, .bytes pad]) =
+      (Gen.openflow13.InstrGotoTable.MarshalBinary { InstrHeader := { Type_ := n16 ty, Length := n16 ln }, TableId := n8 tid, pad := pad }) >>=
+        fun bs => .ok (bs, .obj "InstrGotoTable" [.obj "InstrHeader" [.num ty, .num ln], .num tid, .bytes pad]) := by
+  cases pad <;>
+  simp [InstrGotoTable.marshalM, Gen.openflow13.InstrGotoTable.MarshalBinary, Gen.openflow13.InstrHeader.MarshalBinary, Gen.openflow13.InstrHeader.Len,
+    InstrHeader.bytes, same, Buf.make, Buf.set, Buf.put, Buf.putIn, Buf.copy, makeCopy, copyInto, overwrite, zeros, be16]
+  omega
+
+/-- InstrWriteMetadata with an empty pad: header, four zero bytes, metadata (be64 at 8), mask (be64 at 16) -/
+theorem instrWriteMetadataNoPad_enc_gen (ty ln md mk : Nat) :
+    InstrWriteMetadata.marshalM (.obj "InstrWriteMetadata" [.obj "InstrHeader" [.num ty, .num ln], .bytes [], .num md, .num mk]) =
+      (Gen.openflow13.InstrWriteMetadata.MarshalBinary { InstrHeader := { Type_ := n16 ty, Length := n16 ln }, pad := [], Metadata := n64 md, MetadataMask := n64 mk }) >>=
+        fun bs => .ok (bs, .obj "InstrWriteMetadata" [.obj "InstrHeader" [.num ty, .num ln], .bytes [], .num md, .num mk]) := by
+  simp [InstrWriteMetadata.marshalM, Gen.openflow13.InstrWriteMetadata.MarshalBinary, Gen.openflow13.InstrHeader.MarshalBinary, Gen.openflow13.InstrHeader.Len,
+    InstrHeader.bytes, same, Buf.make, Buf.set, Buf.put, Buf.putIn, Buf.copy, makeCopy, copyInto, overwrite, zeros, be16, be64]
+
 end OFV.Props.C03d
